@@ -13,7 +13,7 @@ P = {
  "C02": dict(
   technique="model-based property testing: recording stateful callback vs explicit call-sequence model, exhaustive small scope (len<=12, all windows) plus random larger cases over all backends",
   text="Every driver entry point is run with a recording, stateful callback on every backend and output path; the recorded call sequence, arguments, slices and output placement are compared with an explicit model. Exhaustive for len 0..=12 x w 1..=len+3; random beyond.",
-  note="Polars cells limited to documented-supported paths (DESIGN 5.7); the removed argument at the single unspecified position is not compared. Sub out_view_placement (enumerated) writes through strided / reversed ndarray out views inside a padded sentinel buffer and checks placement and that nothing else is written; sub deque_out_buffer_and_longer_second_series writes into physically wrapped VecDeque out buffers and passes a second series longer than the first. Both run first in a child process (engine canary): a child killed by a signal is a reported violation.",
+  note="Polars cells limited to documented-supported paths (DESIGN 5.7); the removed argument at the single unspecified position is not compared. Sub out_view_placement (enumerated) writes through strided / reversed ndarray out views inside a padded sentinel buffer and checks placement and that nothing else is written; sub deque_out_buffer_and_longer_second_series writes into physically wrapped VecDeque out buffers and passes a second series longer than the first; the small scope also contains the two expanding windows usize::MAX and 2^63. The subs that touch real containers run first in a child process (engine canary): a child killed by a signal is a reported violation.",
   ref="6 C02"),
  "C03": dict(
   technique="property-based testing (proptest) with tie-heavy / monotone-run generators vs exact per-window reference, plus coverage-guided fuzzing (libFuzzer) of the extrema state machine in the thorough tier",
@@ -58,7 +58,7 @@ P = {
  "C11": dict(
   technique="property-based testing (proptest): textbook reference definitions on the non-null elements, null law, permutation invariance (metamorphic)",
   text="Each aggregation is compared with its definition on the non-null elements (pairwise-complete for two series), is null exactly below the required count, and the symmetric ones are invariant under a generated permutation.",
-  note="Plain AggBasic on null-free data (5.1); tolerance 5.9 with H=0; EPS floor band per 5.6. Series of 65..=400 elements in both tiers (long:* subs); infinite elements for extrema / positions / counts only; integer series up to +-2.1e9 for every aggregation with a float result (element-typed sums are outside, DESIGN 5.2).",
+  note="Plain AggBasic on null-free data (5.1); tolerance 5.9 with H=0; EPS floor band per 5.6. Series of 65..=400 elements in both tiers (long:* subs); infinite elements for extrema / positions / counts only; integer series up to +-2.1e9 for every aggregation with a float result (element-typed sums are outside, DESIGN 5.2); one-signed infinities in sums / means, and 'moments of a series with an infinite element are not finite'; sources include a filtered iterator whose size hint is only an upper bound.",
   ref="6 C11"),
  "C12": dict(
   technique="property-based testing (proptest): sort-based order-statistic reference and validity predicates for partitions",
@@ -78,7 +78,7 @@ P = {
  "C15": dict(
   technique="exhaustive boundary-pool enumeration plus property-based testing of cast/null algebra and comparator order axioms",
   text="All (source,target) pairs of the cast table are exercised on per-type boundary pools exhaustively and on random values: null preservation, agreement with `as`, composition through Option, predicate coherence, and preorder axioms on all triples.",
-  note="Cells documented as panicking (5.7) excluded; canonical nulls only (5.4). Five enumerated tables: numeric casts, bool / String, time types, the Number conversion helpers, IsNone laws.",
+  note="Cells documented as panicking (5.7) excluded; canonical nulls only (5.4). Five enumerated tables: numeric casts, bool / String, time types, the Number conversion helpers, IsNone laws; comparator triples also for signed zeros, infinities and the time types (Time, DateTime<s>, DateTime<ns>, negative raw values).",
   ref="6 C15"),
  "C16": dict(
   technique="differential property testing (proptest) against chrono and an independent civil-calendar implementation; absorbing-NaT law",
@@ -93,7 +93,7 @@ P = {
  "C18": dict(
   technique="grammar-based and mutation-based property testing (proptest) plus coverage-guided fuzzing (libFuzzer) of the parsers; format/parse round trip",
   text="Parsers are run on generated arbitrary and near-grammar strings and must return Ok/Err without panicking; well-formed duration strings must parse to the sum of their terms; strftime -> parse round-trips at the unit's resolution.",
-  note="Totality is shown for generated strings only; all listed formats round-trip for years 1..=9999 (1678..2261 and the range edges for ns), the default text form also for years -400..=0 and 10000..=20000. Thorough tier adds 8 libFuzzer campaigns (fz_parse) on the same parser set.",
+  note="Totality is shown for generated strings only; all listed formats round-trip for years 1..=9999 (1678..2261 and the range edges for ns), the default text form also for years -400..=0 and 10000..=20000, nine user formats that spell the time of day without %H; duration strings with huge terms must give the exact sum or an error (wellformed_huge_terms). Thorough tier adds 8 libFuzzer campaigns (fz_parse) on the same parser set.",
   ref="6 C18"),
  "C19": dict(
   technique="property-based testing (proptest): arithmetic-progression model for range/linspace, order/content model for collectors, write-log model for write_trust_iter",
